@@ -489,8 +489,9 @@ struct Wire {
     failures: u32,
     fallbacks: u32,
     fallback_req: u32,
+    last_duration: Duration,
 }
-static mut WIRE: Wire = Wire { magic: [0x43425f574952455f, 0x4330335f43323021], permit: true, acquires: 0, successes: 0, failures: 0, fallbacks: 0, fallback_req: 0 };
+static mut WIRE: Wire = Wire { magic: [0x43425f574952455f, 0x4330335f43323021], permit: true, acquires: 0, successes: 0, failures: 0, fallbacks: 0, fallback_req: 0, last_duration: Duration::ZERO };
 fn wire() -> &'static mut Wire {
     unsafe { &mut *core::ptr::addr_of_mut!(WIRE) }
 }
@@ -498,11 +499,13 @@ fn scripted_try_acquire<C>(_c: &mut Circuit, _cfg: &CircuitBreakerConfig<C>) -> 
     wire().acquires += 1;
     wire().permit
 }
-fn scripted_record_success<C>(_c: &mut Circuit, _cfg: &CircuitBreakerConfig<C>, _d: Duration) {
+fn scripted_record_success<C>(_c: &mut Circuit, _cfg: &CircuitBreakerConfig<C>, d: Duration) {
     wire().successes += 1;
+    wire().last_duration = d;
 }
-fn scripted_record_failure<C>(_c: &mut Circuit, _cfg: &CircuitBreakerConfig<C>, _d: Duration) {
+fn scripted_record_failure<C>(_c: &mut Circuit, _cfg: &CircuitBreakerConfig<C>, d: Duration) {
     wire().failures += 1;
+    wire().last_duration = d;
 }
 
 use crate::classifier::{DefaultClassifier, FailureClassifier};
@@ -545,6 +548,46 @@ fn wiring_cfg<C>(c: C) -> CircuitBreakerConfig<C> {
     }
 }
 
+/// Clones of a breaker are views of ONE breaker: same circuit, same lock-free state cell.
+#[kani::proof]
+#[kani::unwind(4)]
+#[kani::stub(std::time::Instant::now, tokio::model::std_instant_now)]
+fn clones_share_one_breaker() {
+    let cb = CircuitBreaker::new(Inner::new(svcm::any_script()), Arc::new(wiring_cfg(DefaultClassifier)));
+    let c2 = cb.clone();
+    assert!(Arc::ptr_eq(&cb.circuit, &c2.circuit), "[C04.clones_share_circuit] clones share the circuit (state machine and window)");
+    assert!(Arc::ptr_eq(&cb.state_atomic, &c2.state_atomic), "[C04.clones_share_state_view] clones share the lock-free state view, so every handle reports every transition");
+    let st = any_state();
+    cb.state_atomic.store(st as u8, std::sync::atomic::Ordering::Release);
+    assert!(c2.state_sync() == st && c2.is_open() == (st == CircuitState::Open), "[C04.clones_share_state_view] a transition published through one handle is seen through the other");
+    let f = cb.with_fallback(|r: u32| Box::pin(async move { Ok::<u32, InnerErr>(r) }) as futures::future::BoxFuture<'static, Result<u32, InnerErr>>);
+    let f2 = f.clone();
+    assert!(Arc::ptr_eq(&f.circuit, &f2.circuit) && Arc::ptr_eq(&f.state_atomic, &f2.state_atomic) && Arc::ptr_eq(&f.state_atomic, &c2.state_atomic),
+        "[C04.clones_share_state_view] the fallback variant and its clones share the same breaker");
+    std::mem::forget(f);
+    std::mem::forget(f2);
+    std::mem::forget(c2);
+}
+
+/// C20 readiness clause for the breaker (with and without fallback), whatever state it
+/// publishes: see svc::check_readiness_passthrough.
+#[kani::proof]
+#[kani::unwind(4)]
+#[kani::stub(std::time::Instant::now, tokio::model::std_instant_now)]
+fn readiness_passthrough() {
+    let cb = CircuitBreaker::new(Inner::new(svcm::any_script()), Arc::new(wiring_cfg(DefaultClassifier)));
+    cb.state_atomic.store(any_state() as u8, std::sync::atomic::Ordering::Release);
+    if kani::any() {
+        let mut cb = cb;
+        svcm::check_readiness_passthrough(&mut cb);
+        std::mem::forget(cb);
+    } else {
+        let mut f = cb.with_fallback(|r: u32| Box::pin(async move { Ok::<u32, InnerErr>(r) }) as futures::future::BoxFuture<'static, Result<u32, InnerErr>>);
+        svcm::check_readiness_passthrough(&mut f);
+        std::mem::forget(f);
+    }
+}
+
 fn cb_wiring(with_fallback: bool) {
     tokio::model::st().mutex_avail = tokio::model::Avail::Any; // the breaker lock may be held by other callers
     wire().permit = kani::any();
@@ -566,6 +609,7 @@ fn cb_wiring(with_fallback: bool) {
         });
         let _ = svcm::poll_ready_once(&mut f);
         let mut fut = f.call(req);
+        tokio::model::advance(any_millis(100_000)); // the response future is polled late
         let mut k = 0;
         while k < 4 && out.is_none() {
             if let Poll::Ready(r) = svcm::poll_once(fut.as_mut()) {
@@ -579,6 +623,7 @@ fn cb_wiring(with_fallback: bool) {
         let mut cb = cb;
         let _ = svcm::poll_ready_once(&mut cb);
         let mut fut = cb.call(req);
+        tokio::model::advance(any_millis(100_000)); // the response future is polled late
         let mut k = 0;
         while k < 4 && out.is_none() {
             if let Poll::Ready(r) = svcm::poll_once(fut.as_mut()) {
@@ -611,6 +656,7 @@ fn cb_wiring(with_fallback: bool) {
             assert!(mon().calls == 1 && mon().last_req == req, "[C20.circuitbreaker_forwards_once] an admitted call is forwarded exactly once, unchanged");
             assert!(mon().unready_calls == 0, "[C20.circuitbreaker_ready_instance] the call goes to the instance on which readiness was observed");
             assert!(w.fallbacks == 0, "[C03.fallback_only_when_rejected] the fallback runs only for rejected calls");
+            assert!(w.last_duration == Duration::ZERO, "[C04.call_duration_is_the_inner_calls] the duration recorded for slow-call detection is the inner call's own (here: zero), not the time the response future waited to be polled");
             match (r, script.outcomes[0]) {
                 (Ok(v), Ok(x)) => assert!(*v == x && w.successes == 1 && w.failures == 0, "[C20.circuitbreaker_ok_unchanged] response unchanged, one success recorded"),
                 (Err(CircuitBreakerError::Inner(InnerErr(e))), Err(x)) => assert!(*e == x && w.failures == 1 && w.successes == 0, "[C20.circuitbreaker_err_unchanged] error unchanged in the Inner variant, one failure recorded"),
